@@ -62,6 +62,8 @@ def show(v, depth=0):
         return '&' + str(v[1]) + ''.join('.' + str(s[1]) for s in v[2])
     if k == 'rec':
         return v[1] + '{' + ', '.join('%s=%s' % ('.'.join(map(str, kk)), show(x, depth + 1)) for kk, x in sorted(v[2].items(), key=str)) + '}'
+    if k == 'ovr':
+        return show(v[1], depth + 1)
     if k == 'closure':
         return 'closure:' + v[1].split('::')[-2]
     if k == 'fn':
@@ -362,8 +364,12 @@ class Engine:
                 v = self.load(root, proj, s) if root is not None else proj
                 if isinstance(v, tuple) and v[0] == 'ref':
                     root, proj = v[1], v[2]
+                elif isinstance(v, tuple) and v[0] in ('term', 'sym', 'ovr') and v != TOP:
+                    # deref of a non-reference abstract value (e.g. the `&mut T` returned by an opaque call): the value itself is the
+                    # object; writes through it are kept in an overlay so that later reads see them
+                    base = v[1] if v[0] == 'ovr' else v
+                    root, proj = ('V', key(base), base), ()
                 else:
-                    # deref of a non-reference abstract value: value-rooted
                     root, proj = None, v
             else:
                 step = self._step(e, fn, fid, s)
@@ -391,6 +397,8 @@ class Engine:
             return proj
         if root[0] == 'L':
             v = s.mem.get((root[1], root[2]), TOP)
+        elif root[0] == 'V':
+            v = s.heap.get(('#V', root[1]), root[2])
         else:
             v = s.heap.get(root[1], TOP)
         for st in proj:
@@ -404,6 +412,10 @@ class Engine:
         if v[0] == 'ref' and k in ('f', 'd', 'i'):
             # auto-deref should not happen in MIR; be lenient
             v = self.load(v[1], v[2], s)
+        if v[0] == 'ovr':
+            if k == 'f' and (step[2] or str(step[1])) in v[2]:
+                return v[2][step[2] or str(step[1])]
+            return self.project(v[1], step, s)
         if k == 'd':
             if v[0] == 'sym':
                 return ('sym', v[1] + '#' + str(step[2] or step[1]))
@@ -441,6 +453,9 @@ class Engine:
         if root[0] == 'L':
             kk = (root[1], root[2])
             s.mem[kk] = self._update(s.mem.get(kk, TOP), proj, val, s)
+        elif root[0] == 'V':
+            cur = s.heap.get(('#V', root[1]), root[2])
+            s.heap[('#V', root[1])] = self._update(cur, proj, val, s) if proj else val
         else:
             s.heap[root[1]] = self._update(s.heap.get(root[1], TOP), proj, val, s)
         return True
@@ -473,6 +488,15 @@ class Engine:
                 old = d.get(kk, ('sym', base + '.' + kk))
                 d[kk] = self._update(old, proj[1:], val, s)
                 return ('rec', base, d)
+            if isinstance(v, tuple) and v[0] in ('term', 'ovr'):
+                base = v[1] if v[0] == 'ovr' else v
+                d = dict(v[2]) if v[0] == 'ovr' else {}
+                kk = name or str(i)
+                oldv = d.get(kk)
+                if oldv is None:
+                    oldv = self.project(base, step, s)
+                d[kk] = self._update(oldv, proj[1:], val, s)
+                return ('ovr', base, d)
             if v == TOP or not isinstance(v, tuple) or v[0] in ('top',):
                 # uninitialised local being built field by field (tuple / struct)
                 f = [TOP] * (i + 1)
@@ -495,7 +519,7 @@ class Engine:
             if e['k'] == 'field' and e.get('of'):
                 last = e
         through_deref = any(e['k'] == 'deref' for e in place['p'])
-        if last is not None and (through_deref or root is None or root[0] == 'H'):
+        if last is not None and (through_deref or root is None or root[0] in ('H', 'V')):
             s.events.append(('write', last['of'], last['n'], val, (fn['path'], sp['line']), self._place_path(place)))
         if root is None:
             return
@@ -590,6 +614,8 @@ class Engine:
             root, proj = self.resolve(rv['p'], fn, fid, s)
             if root is None:
                 return proj       # reference to a value-rooted place: keep the value (transparent)
+            if root[0] == 'V':
+                return self.load(root, proj, s)   # likewise (the overlay is keyed by the base term, so re-derefs find it again)
             return ('ref', root, proj)
         if k == 'discr':
             root, proj = self.resolve(rv['p'], fn, fid, s)
